@@ -44,12 +44,12 @@ CHECKS["C14"] = ("DESIGN §4 C14",
     "trusted: the harness's record of parameters and conditions; the live coordinates and state are read through public getters; phase-field compares the displacement system only")
 
 CHECKS["C15"] = ("DESIGN §4 C15",
-    "explicit-state exploration, unmerged: for 16 simulation scenarios and 6 prefixes every sequence of 15 operations {solve a/b, save iteration (plain / with user data), folder ''/A/B, restore 0/last (with and without query), read stored, Result(iter=0 / -1), replace mesh, Save+Load_Simu} up to depth 2 (quick; depth 3 over 5 folder / reload / restore operations after the two-mesh prefix) / 3 (thorough); every array handed out by a query is overwritten by the harness; invariants against the harness's own deep-copied snapshots after every operation",
+    "explicit-state exploration, unmerged: for 15 simulation scenarios and 7 prefixes every sequence of 15 operations {solve a/b, save iteration (plain / with user data), folder ''/A/B, restore 0/last (with and without query), read stored, Result(iter=0 / -1), replace mesh, Save+Load_Simu} up to depth 2 (quick; depth 3 over 5 folder / reload / restore operations after the two-mesh prefix) / 3 (thorough); every array handed out by a query is overwritten by the harness; invariants against the harness's own deep-copied snapshots after every operation",
     "all operation histories up to the depth bound are executed on the real simulations (in-memory and on-disk iterations); the oracle is a list of snapshots taken through public getters at save time",
     "trusted: deep copies taken by the harness; exact equality for stored entries, 1e-12 for restored fields; scratch folders under mkdtemp")
 
 CHECKS["C08"] = ("DESIGN §4 C08",
-    "explicit-state exploration of all rigid-motion histories of length <= 2 (quick) / 3 (thorough) over {translate, rotate 90, rotate generic, reflect} applied with the library's own Mesh.Translate/Rotate/Symmetry on 81 (domain, element type) pairs, invariants after every operation; exhaustive enumeration of point-location queries (reference lattice of every element x batch sizes x placements x monomial fields)",
+    "explicit-state exploration of all rigid-motion histories of length <= 2 (quick) / 3 (thorough) over {translate, rotate 90, rotate generic, reflect} applied with the library's own Mesh.Translate/Rotate/Symmetry on 96 (domain, element type) pairs (gmsh polygons and extrusions, templates, meshes with curved interior edges, micro-scale bodies), invariants after every operation; exhaustive enumeration of point-location queries (reference lattice of every element x batch sizes x placements x monomial fields)",
     "every motion history up to the bound and every lattice query is executed on the real meshes; oracles: own numpy motion, shoelace/divergence-theorem measures, outward normals rebuilt from vertices and adjacency, exact monomial values",
     "trusted: numpy; MeshZoo closed-form geometry; tolerance 1e-9 (1e-6 where the library inverts the element map with least_squares)")
 CHECKS["C10"] = ("DESIGN §4 C10",
